@@ -145,6 +145,48 @@ def check_case(ctx, doc, mq_ast, mq_text, rel_asts, rel_texts, style, cls):
     ctx.case(h(canon(doc), mq_text, rel_texts, style), nontrivial)
 
 
+def multi_env_history(ctx):
+    """The same relative-query text projected by differently configured environments in one
+    process, in both orders: each environment's projection must follow its own reading of the
+    text (expected structure built from that environment's own finditer)."""
+    import jsonpath
+
+    class Tok(jsonpath.JSONPathEnvironment):
+        root_token = "%"
+
+    doc = {"a": ["decoded", 20, 30], "\\u0061": ["literal", 20, 30], "b": {"a": 1, "\\u0061": 2, "c": [1, 2, 3]}, "$": {"x": 5}, "%": {"x": 6}}
+    texts = ["$['\\u0061']", "$.b['\\u0061', 'c']", "$..['\\u0061'][0]", "$.b.c[0, 2]", "%['$'].x", "$['%'].x"]
+    envs = [("default", jsonpath.JSONPathEnvironment()), ("no-unicode-escape", jsonpath.JSONPathEnvironment(unicode_escape=False)), ("renamed-root", Tok()), ("default-again", jsonpath.JSONPathEnvironment())]
+    for order in (envs, list(reversed(envs)), envs):
+        for name, env in order:
+            for text in texts:
+                if impl.call(env.compile, text).ok is False:
+                    continue
+                for style in ("RELATIVE", "ROOT", "FLAT"):
+                    ctx.evaluation()
+                    snap = Snapshot(doc)
+                    m = next(iter(env.finditer(env.root_token, doc)))
+                    sels = [(tuple(x.parts), x.obj) for x in env.finditer(text, doc)]
+                    got = impl.call(lambda: list(jsonpath.Query([m], env).select(text, projection=getattr(jsonpath.Projection, style))))
+                    asc, overlapping = classify(sels)
+                    ctx.count("multi_environment_projections")
+                    case = {"multi_env": True}
+                    if snap.changed():
+                        ctx.violation("document-modified-by-projection", case, {"env": name, "text": text})
+                        return
+                    if not sels:
+                        if not got.ok or got.value:
+                            ctx.violation("projection-produced-for-empty-selection:multi-env", case, {"env": name, "text": text, "got": got.desc() if not got.ok else canon(got.value)[:200]})
+                            return
+                        continue
+                    if not asc and style != "FLAT":
+                        continue
+                    want = expected(doc, (), sels, style)
+                    if not got.ok or len(got.value) != 1 or canon(got.value[0]) != canon(want):
+                        ctx.violation("projection-differs-from-the-environment's-own-selection:%s" % style, case, {"env": name, "text": text, "style": style, "got": got.desc() if not got.ok else canon(got.value)[:300], "expected": canon([want])[:300]})
+                        return
+
+
 def gen_rel(r, sub, depth=0):
     """A relative query AST selecting below `sub` (never the match itself)."""
     segs = gen.gen_guided_segments(r, sub, max_segs=3, desc=0.15)
@@ -154,6 +196,8 @@ def gen_rel(r, sub, depth=0):
 def run(spec, ctx):
     r = ctx.rng
     rr = Renderer(r, blanks=0.05)
+    if spec["shard"] == 1:
+        multi_env_history(ctx)
     if spec["shard"] == 0:
         # directed classes
         doc = {"d": [{"e": 1, "f": 0}, {"e": 2, "f": ""}, {"e": 3, "f": False}, {"e": [], "f": {}}, {"e": None}], "0": {"1": "x", "01": "y"}, "s": "str", "n": 5, "empty": {}, "arr": [10, 11, 12, 13, 14]}
@@ -190,4 +234,7 @@ def finalize(m, tier):
 
 
 def replay(case, ctx):
+    if case.get("multi_env"):
+        multi_env_history(ctx)
+        return
     check_case(ctx, case["doc"], case["mq_ast"], case["mq_text"], case["rel_asts"], case["rel_texts"], case["style"], case.get("class", "replay"))
